@@ -295,7 +295,7 @@ PROPS = {
         'budget': _merge(_p('illegal', 220, 4000), _p('mixed', 60, 1000)),
         'projection': [(r'panic_missing:.*', None)],
         'chk': [r'state changed'],
-        'own_ops': set(),
+        'own_ops': {'XCHG', 'RM', 'RELSET', 'RELXCHG', 'SET', 'ASSIGN', 'BNEW', 'NEW'},
         'rule': "seeded histories (profile illegal): 40 % of the operations come from the illegal-argument stream (16 classes); for each, the model must panic too, and the implementation's full observable digest before and after a failed single-entity call must be equal",
     },
     'C11': {
